@@ -3,7 +3,7 @@ use litmus::*;
 
 fn main() {
     let mut t = Tally::new();
-    for r in 0..rounds(2) {
+    for r in 0..rounds(3) {
         clone_read_drop::<UnionFirst>(&mut t, 2, 40 + r as u64);
         clone_read_drop::<UnionSecond>(&mut t, 2, 45 + r as u64);
     }
